@@ -331,7 +331,7 @@ func invariantsX(w *pvx.World, after string, role func(int64) string, dormant ma
 	for r := range dormant {
 		o.dormant[r.Child] = r.Parent
 	}
-	ex.settle(o, storedParents)
+	ex.settle(o, storedParents, dormant)
 	return o, nil
 }
 
@@ -674,7 +674,11 @@ func runCase1(c Case, mode string, applied *bool) *core.Violation {
 			if c.Fault.How == "write-lock" { // every write statement of the event waits for sqlite's busy timeout (5 s) first
 				budget += time.Duration(2*len(pre.children(int64(actorID)))+6) * 5500 * time.Millisecond
 			}
-			ex.arm(c.Fault, c, before)
+			touched := []int64{namedID}
+			if namedID < 0 {
+				touched = append(pre.children(int64(actorID)), int64(actorID))
+			}
+			ex.arm(c.Fault, c, before, touched)
 			*applied = true
 		}
 		v := core.WithWatchdog(budget, "event:"+class, func() *core.Violation {
